@@ -457,7 +457,7 @@ def mutate_spec(rng, spec):
             for m in list(marks)[rng.randint(0, len(marks)):]:
                 del marks[m]
             if rng.random() < 0.3:
-                spec.pop("marks")
+                spec.pop("marks", None)
                 marks = {}
         elif k == "node-marks":
             nodes[rng.choice(nnames)]["marks"] = rng.choice(["_", "", None] + mnames + groups)
